@@ -36,7 +36,8 @@ EmitNc == PrintT(ToJson([meta |-> F.meta, header |-> F.header, rows |-> [r \in D
                          gen |-> [timefmt |-> g.timefmt, colorder |-> g.colorder, roworder |-> g.roworder, misstok |-> g.misstok, enc |-> enc, ord |-> ord],
                          input |-> InputJ(I0), nc |-> NcJ(NC),
                          othernames |-> [k \in DOMAIN SetToSeq(I0.others) |-> <<SetToSeq(I0.others)[k], NameStr(SetToSeq(I0.others)[k])>>]]))
-InitNc == g \in Gens(0) /\ phase = "file" /\ enc \in Encs(g) /\ ord \in Ords(enc)
+\* expressible in both formats: score columns named like the NetCDF layout's own variables (colset 11) have no NetCDF counterpart
+InitNc == g \in {x \in Gens(0) : x.colset # 11} /\ phase = "file" /\ enc \in Encs(g) /\ ord \in Ords(enc)
 EvaluateNc == phase = "file" /\ phase' = "emitted" /\ UNCHANGED <<g, enc, ord>> /\ EmitNc
 SpecNc == InitNc /\ [][EvaluateNc]_nvars
 InvRoundTrip == RoundTrip(I0, enc, ord, Names(I0))
